@@ -58,3 +58,21 @@ theorem maxOver_eq {α : Type} (f : α → Int) (lo : Int) (l : List α) (v : In
   omega
 
 end Search
+
+namespace Search
+open Tak (Err)
+
+theorem Sat.bind {α β : Type} {x : Except Err α} {f : α → Except Err β} {Q : β → Prop}
+    (h : Sat x (fun a => Sat (f a) Q)) : Sat (x >>= f) Q := by
+  intro b hb
+  cases x with
+  | error e => cases hb
+  | ok a => exact h a rfl b hb
+
+theorem Sat.pure {α : Type} {a : α} {Q : α → Prop} (h : Q a) : Sat (pure a : Except Err α) Q :=
+  Sat.ok h
+
+theorem Sat.throw {α : Type} {e : Err} {Q : α → Prop} : Sat (throw e : Except Err α) Q :=
+  Sat.error
+
+end Search
